@@ -39,15 +39,33 @@ def main(ids):
                                    capture_output=True, text=True, env=envp, timeout=1800)
                 viol = r.stdout.count("\nVIOLATION") + (1 if r.stdout.startswith("VIOLATION") else 0)
                 res = "detected" if (r.returncode == 1 and viol) else ("silent" if r.returncode == 0 else "exit-%d" % r.returncode)
+                replay = None
+                if res == "detected":
+                    # every reported replay file must reproduce on the mutated tree and not on /repo
+                    paths = re.findall(r"^VIOLATION property=\S+ replay=(\S+)", r.stdout, flags=re.M)[:3]
+                    rep_m = rep_c = 0
+                    for pth in paths:
+                        a = subprocess.run([os.path.join(env.HOME, "vf"), "replay", pth], capture_output=True,
+                                           text=True, env=envp, timeout=600)
+                        b = subprocess.run([os.path.join(env.HOME, "vf"), "replay", pth], capture_output=True,
+                                           text=True, env=dict(os.environ), timeout=600)
+                        rep_m += a.returncode == 1
+                        rep_c += b.returncode == 0
+                    replay = "%d/%d reproduce on the mutant, %d/%d silent on the unchanged tree" % (
+                        rep_m, len(paths), rep_c, len(paths))
+                    if rep_m != len(paths) or rep_c != len(paths):
+                        res = "detected-but-replay-mismatch"
             ok = res == m["expect"] or (m["expect"] == "equivalent" and res == "silent")
             if not ok:
                 bad += 1
             results.append({"id": m["id"], "check": m["check"], "what": m["what"], "expect": m["expect"],
-                            "result": res, "ok": ok})
-            print("%-7s %-10s expect=%-10s %s  %s" % (m["id"], res, m["expect"], "ok" if ok else "MISMATCH", m["what"]))
+                            "result": res, "ok": ok, "replay": locals().get("replay")})
+            print("%-7s %-10s expect=%-10s %s  %s  [%s]" % (m["id"], res, m["expect"], "ok" if ok else "MISMATCH",
+                                                         m["what"][:60], locals().get("replay")))
             sys.stdout.flush()
         finally:
             shutil.rmtree(scratch, ignore_errors=True)
+            shutil.rmtree(os.path.join("/var/tmp/verif-out", os.path.basename(scratch)), ignore_errors=True)
     out = os.path.join(env.HOME, "evidence", "selftest.json")
     prev = {}
     if os.path.exists(out) and ids:
